@@ -5,12 +5,15 @@ package checks
 // Engine "lattice-events" (package verif/lattice/events) drives the real events
 // store of the node over a harness database that outlives the store object.
 //
-// Part A: every sequence of <=4 (quick) / <=6 (thorough) batches of a 9-batch
-// menu, committed at increasing heights, x address/key pools of 1, 2 and 300
-// distinct values x a store restart at every subset of the batch boundaries
-// (x which call comes first on the new store object: LoadEvents or the
-// CommitEvents of the next batch). After every commit and every restart every
-// committed height is loaded and compared with the model, field by field.
+// Part A: every sequence of <=4 (quick) / <=5 (thorough; plus length 6 over a
+// 4-batch sub-menu) batches of a 7-batch menu, committed at increasing heights,
+// x address/key pools of 1, 2 and 300 distinct values x a store restart at
+// every subset of the batch boundaries (x which call comes first on the new
+// store object: LoadEvents, or - pool 2 in quick, every pool in thorough - the
+// CommitEvents of the next batch). Every committed height is loaded and
+// compared with the model, field by field, at the end of every scenario; the
+// scenario set is prefix closed, so this covers every commit point (see
+// lattice/events.RunA).
 //
 // Part B: 65 534 ... 65 540 distinct validator keys and 70 000 distinct
 // addresses over four heights, without restarts and with a restart after every
@@ -124,7 +127,7 @@ func c24Seq(n, idx, m int) []int {
 var c24Pools = []int{1, 2, 300}
 
 // c24Scenarios calls f for every scenario of one sequence, in a fixed order.
-func c24Scenarios(seq []int, f func(sub int, sc lev.ScenarioA)) {
+func c24Scenarios(seq []int, modeC map[int]bool, f func(sub int, sc lev.ScenarioA)) {
 	n := len(seq)
 	sub := 0
 	for _, pool := range c24Pools {
@@ -132,7 +135,7 @@ func c24Scenarios(seq []int, f func(sub int, sc lev.ScenarioA)) {
 			f(sub, lev.ScenarioA{Seq: seq, Pool: pool, Mask: mask, Mode: "L"})
 			sub++
 			// mode C differs from mode L only when a restart is followed by another batch
-			if mask&((1<<uint(n-1))-1) != 0 {
+			if modeC[pool] && mask&((1<<uint(n-1))-1) != 0 {
 				f(sub, lev.ScenarioA{Seq: seq, Pool: pool, Mask: mask, Mode: "C"})
 				sub++
 			}
@@ -185,10 +188,15 @@ func init() {
 }
 
 func runC24(c *Ctx) {
-	maxLen, menu := 4, len(lev.Menu)
+	menu := len(lev.Menu)
+	maxLen := 4                    // full menu up to this length
+	var subMenu []int              // thorough: sequences of length maxLen+1 over this sub-menu
+	modeC := map[int]bool{2: true} // pools for which "CommitEvents first on the new store" is enumerated too
 	restartsB := []string{"none", "every"}
 	if !c.Quick() {
-		maxLen = 6
+		maxLen = 5
+		subMenu = []int{0, 2, 3, 6}
+		modeC = map[int]bool{1: true, 2: true, 300: true}
 		restartsB = []string{"none", "every", "last"}
 	}
 	const addrsB = 70000
@@ -196,8 +204,7 @@ func runC24(c *Ctx) {
 	// work units: part B runs first (the longest), then one unit per part-A sequence
 	type unit struct {
 		b   *lev.ParamsB
-		n   int
-		idx int
+		seq []int
 	}
 	var units []unit
 	for _, rs := range restartsB {
@@ -210,7 +217,20 @@ func runC24(c *Ctx) {
 	for n := 1; n <= maxLen; n++ {
 		pow *= menu
 		for i := 0; i < pow; i++ {
-			units = append(units, unit{n: n, idx: i})
+			units = append(units, unit{seq: c24Seq(n, i, menu)})
+		}
+	}
+	if len(subMenu) > 0 {
+		n, pw := maxLen+1, 1
+		for i := 0; i < n; i++ {
+			pw *= len(subMenu)
+		}
+		for i := 0; i < pw; i++ {
+			sq := c24Seq(n, i, len(subMenu))
+			for j := range sq {
+				sq[j] = subMenu[sq[j]]
+			}
+			units = append(units, unit{seq: sq})
 		}
 	}
 	// the seed only rotates the order in which the part-A units are taken
@@ -249,14 +269,14 @@ func runC24(c *Ctx) {
 				}
 				ui := nB + (i-nB+rot)%(len(units)-nB)
 				u := units[ui]
-				seq := c24Seq(u.n, u.idx, menu)
-				c24Scenarios(seq, func(sub int, sc lev.ScenarioA) {
-					res := lev.RunA(sc, u.n <= 2)
+				seq := u.seq
+				c24Scenarios(seq, modeC, func(sub int, sc lev.ScenarioA) {
+					res := lev.RunA(sc, len(seq) <= 3)
 					a := aggA[w]
 					s := sc
 					a.take([2]int{ui, sub}, res, c24Replay{Part: "A", Scenario: &s, Text: sc.String()})
 					a.perPool[fmt.Sprint(sc.Pool)]++
-					a.perLen[u.n]++
+					a.perLen[len(seq)]++
 				})
 			}
 		}(w)
@@ -303,9 +323,9 @@ func runC24(c *Ctx) {
 	}
 	samples := []interface{}{
 		c24Render(lev.ScenarioA{Seq: []int{1, 3}, Pool: 2, Mask: 1, Mode: "L"}),
-		c24Render(lev.ScenarioA{Seq: []int{8, 4, 5}, Pool: 300, Mask: 5, Mode: "C"}),
-		c24Render(lev.ScenarioA{Seq: []int{7, 0, 2, 6}, Pool: 1, Mask: 15, Mode: "L"}),
-		map[string]interface{}{"scenario": "part B " + units[nB-1].b.String(), "layout": "height 10: keys 1..30000, height 20: keys 30001..65530, height 30: keys 65531..N, height 40: old and new keys again; one event per key, type = (key number-1) mod 7 of reward/slash/jail/unbond/kick/move/removeCandidate; every event with an address takes a fresh one, unlock/expired-order events fill up to the address count; key-less unbonds sprinkled in"},
+		c24Render(lev.ScenarioA{Seq: []int{6, 4, 5}, Pool: 300, Mask: 5, Mode: "L"}),
+		c24Render(lev.ScenarioA{Seq: []int{2, 0, 3, 5}, Pool: 2, Mask: 7, Mode: "C"}),
+		map[string]interface{}{"scenario": "part B " + units[nB-1].b.String(), "layout": "height 10: keys 1..30000, height 20: keys 30001..65530, height 30: keys 65531..N, height 40: old and new keys again; one event per key, type = (key number-1) mod 6 of reward/slash/jail/unbond/kick/move (+ a removeCandidate for every 11th key); every event with an address takes a fresh one, unlock/expired-order events fill up to the address count; key-less unbonds sprinkled in"},
 	}
 	cv := c.Ev.Coverage
 	cv["evaluations"] = A.scenarios + B.scenarios + A.heights + B.heights
@@ -322,12 +342,21 @@ func runC24(c *Ctx) {
 	}
 	cv["scenarios_per_length"] = perLen
 	cv["menu_batches"] = menu
-	cv["max_sequence_length"] = maxLen
+	cv["max_sequence_length_full_menu"] = maxLen
+	cv["sub_menu_for_one_longer"] = subMenu
 	cv["part_b_runs"] = runsB
 	cv["sequences_skipped_by_deadline"] = skipped
 	cv["exhaustive"] = skipped == 0
 	cv["samples"] = samples
-	cv["rule"] = fmt.Sprintf("part A: every sequence of 1..%d batches out of a menu of %d batches (all 12 event types; empty batch; identical events; nil and set optional key; amounts 0, 1, 40 digits; coin ids 0, 1, 2^32-1) committed at heights 3, 255, 256, 65536, 16777216, 4294967295, x pool class (1, 2, 300 distinct addresses and keys; class 300 starts from a database primed with elements 0..297, elements 298 and 299 are first seen inside the scenario) x every subset of the batch boundaries at which the store object is replaced by a new one over the same database x whether LoadEvents or the next CommitEvents is the first call on the new object; after every commit and every restart every committed height is loaded and compared field by field with the specs added (the 298-event priming height of class 300: at every point for sequences of length<=2, once at the end otherwise). part B: one run per (number of distinct keys 65534..65540, restart policy). A scenario is counted in distinct_nontrivial when at least one restart happened in it AND at least one non-empty batch committed inside the scenario was afterwards loaded by a later store object than the one that committed it (scenarios are distinct tuples by construction; priming batches do not count). evaluations = scenarios executed + (height, store) comparisons made.", maxLen, menu)
+	modeCPools := "pool class 2"
+	if !c.Quick() {
+		modeCPools = "every pool class"
+	}
+	extra := ""
+	if len(subMenu) > 0 {
+		extra = fmt.Sprintf(" plus every sequence of %d batches over the sub-menu %v,", maxLen+1, subMenu)
+	}
+	cv["rule"] = fmt.Sprintf("part A: every sequence of 1..%d batches out of a menu of %d batches (all 12 event types; empty batch; identical events; nil and set optional key; amounts 0, 1, 40 digits; coin ids 0, 1, 2^32-1),%s committed at heights 3, 255, 256, 65536, 16777216, 4294967295, x pool class (1, 2, 300 distinct addresses and keys; class 300 starts from a database primed with elements 0..297 - a 298-event height and an 8-event sentinel height on the ids around 255/256 - elements 298 and 299 are first seen inside the scenario) x every subset of the batch boundaries at which the store object is replaced by a new one over the same database x mode (L: LoadEvents is the first call on a new object; C, for %s: the CommitEvents of the next batch is). Right after a commit (and after the restart following it, mode L) the height just committed is loaded and compared with the specs added, field by field; after the last commit and again after the restart following it EVERY committed height is (class 300: including the sentinel height, and the 298-event height for sequences of length<=3), and a never-committed height must load nothing. The scenario set is prefix closed with identical call histories, so every commit point of every scenario has all its heights verified in the scenario ending there. part B: one run per (number of distinct keys 65534..65540, restart policy), all heights verified after every commit and every restart. A scenario is counted in distinct_nontrivial when at least one restart happened in it AND at least one non-empty batch committed inside the scenario was afterwards loaded by a later store object than the one that committed it (scenarios are distinct tuples by construction; priming batches do not count). evaluations = scenarios executed + (height, store) comparisons made.", maxLen, menu, extra, modeCPools)
 	c.Ev.Assumptions = append(c.Ev.Assumptions,
 		"tm-db MemDB (wrapped by verif/vdb) stands for the LevelDB the node uses for events; only Get/Set are used by the store",
 		"a restart is modelled as a new NewEventsStore object over the same database (all writes of the store are synchronous Set calls, none is buffered in the object)",
